@@ -148,6 +148,10 @@ func TestC02_Tampering(t *testing.T) {
 		stack := newStack(p)
 		// previous state: a valid create
 		cr := genOpCase(t, "create", &opGenCtx{P: p, St: st, NoIetf: true, Classes: []string{"valid"}})
+		if strings.Contains(cr.Class, "too-large") {
+			st.Exclude("generated delta larger than the maximum delta size")
+			return
+		}
 		suffix := cr.Build.suffixFor(p.MultihashAlgorithms[0])
 		m0 := anchorMeta{Time: 5, Canonical: "c0"}
 		ref0, _ := refApply(&refModel{}, cr, m0, p)
@@ -159,6 +163,10 @@ func TestC02_Tampering(t *testing.T) {
 		ctx := &opGenCtx{P: p, Doc: ref0.Doc, Suffix: suffix, Keys: chainKeys{Update: cr.Build.NextUpdate, Recovery: cr.Build.NextRecov},
 			St: st, NoIetf: true, Classes: []string{"valid"}, Time: 6}
 		c := genOpCase(t, typ, ctx)
+		if strings.Contains(c.Class, "too-large") {
+			st.Exclude("generated delta larger than the maximum delta size")
+			return
+		}
 		c.Build.From, c.Build.Until = 0, 0
 		// the untampered operation is effective (window: none)
 		switch typ {
